@@ -208,6 +208,21 @@ def run(ctx):
     for e in ctx.read_results(bp):
         if e.get("kind") == "prop":
             ctx.violation("pipeline:%s:%s" % (e["prop"], e.get("variant")), "real HandleRegUpdates: %s (%s)" % (e["prop"], e.get("detail")), e)
+    # a peer station that accepts share requests and never answers (Ingest.tla: PeerAnswers carries no fairness; ShareMode = "inline" violates Terminates)
+    si = ctx.tlc(sdir, "Ingest.tla", "MC_Ingest_shareinline.cfg", timeout=300, count=False, workers=2)
+    if si["inv"] != "Terminates":
+        raise vlib.InfraError("the instance whose workers wait for the peer station's answer should violate Terminates, got %s" % si["inv"])
+    spp = os.path.join(ctx.scratch, "stalledpeer.ndjson")
+    rsp = ctx.go_test(PKG, FILES, "lib", "^TestVerifStalledPeer$", env={"VERIF_OUT": spp}, timeout=120)
+    sprows = ctx.read_results(spp)
+    if not any(e.get("kind") == "summary" for e in sprows):
+        raise vlib.InfraError("stalled-peer driver did not finish:\n" + rsp["out"][-2000:])
+    for e in sprows:
+        if e.get("kind") == "prop":
+            ctx.violation("pipeline:%s:%s" % (e["prop"], e.get("variant", "stalled-peer")), "real HandleRegUpdates with share-over-API enabled and a peer station that "
+                          "never answers: %s" % e.get("detail"), e)
+        elif e.get("kind") == "stalledpeer":
+            ctx.stage("C", stalled_peer={k: v for k, v in e.items() if k != "kind"})
     ctx.cov["traces_validated_against_impl"] = len(traces)
     ctx.sample({"stage": "C", "trace_prefix": traces[0][:10]})
     ctx.stage("C", traces=len(traces), events=totalev, accepted=ok, quiescent_points_with_drops=ndrops)
